@@ -4,16 +4,16 @@ of scpiheap_* must leave Props/C20Gen building, semantic changes must break it.
 
     python3 tools/c2lean_heap_experiments.py [--full] [id ...]
 
-Works in a scratch worktree of the C repository (/tmp/genheap_scratch, removed at the end); never touches /repo.  For every
+Works in a scratch worktree of the C repository (/tmp/genheap2_scratch, removed at the end); never touches /repo.  For every
 experiment: apply the textual edit to libscpi/src/utils.c, compile it (configuration B), run the translator
-(VERIF_REPO=/tmp/genheap_scratch), `lake build ScpiVerif.Props.C20Gen`, report which declarations fail; with --full also
+(VERIF_REPO=/tmp/genheap2_scratch), `lake build ScpiVerif.Props.C20Gen`, report which declarations fail; with --full also
 `tools/check.py C20 --tier quick`.  The generated files are restored from the unchanged /repo at the end.
 """
 import os, re, subprocess, sys, json
 HERE = os.path.dirname(os.path.abspath(__file__))
 VERIF = os.path.dirname(HERE)
 REPO = "/repo"
-SCRATCH = "/tmp/genheap_scratch"
+SCRATCH = "/tmp/genheap2_scratch"
 UTILS = os.path.join(SCRATCH, "libscpi", "src", "utils.c")
 
 TWO_PART = """    if (len >= rem) {
